@@ -166,7 +166,7 @@ func (n *Native) ReplayKernel(job *Job, entries []string, v *Violation) (ReplayR
 	for i := 0; i < tries && !res.Reproduced; i++ {
 		ctx, cancel := context.WithTimeout(context.Background(), 20*time.Second)
 		cmd := exec.CommandContext(ctx, bin, "-test.run", "^TestVerifReplay$", "-test.timeout", "3s", "-test.v")
-		cmd.Dir = n.CfgDir
+		cmd.Dir = configRoot(job.Config)
 		cmd.Env = append(os.Environ(), "VERIF_MODEL="+mf.Name(), "VERIF_ENTRY="+job.Entry, fmt.Sprintf("VERIF_N=%d", job.N),
 			"VERIF_SOURCE="+job.Source, "VERIF_FILE="+job.File)
 		out, _ := cmd.CombinedOutput()
@@ -195,7 +195,11 @@ func tail(s string, n int) string {
 // ReplayProgram runs the native ti on the witness program and checks for the symptom the
 // violation claims (crash / hang). Output-relation violations are replayed by the
 // property-specific functions in props_*.go.
-func (n *Native) ReplayProgram(v *Violation) ReplayResult {
+func (n *Native) ReplayProgram(v *Violation, cfgName string) ReplayResult {
+	cfg := ""
+	if cfgName != "" {
+		cfg = filepath.Join(configRoot(cfgName), ".ti-config")
+	}
 	src, ok := v.Witness["src"]
 	if !ok {
 		return ReplayResult{Observed: "no src witness"}
@@ -207,15 +211,27 @@ func (n *Native) ReplayProgram(v *Violation) ReplayResult {
 	res := ReplayResult{Cmd: "ti " + strings.Join(args, " ")}
 	switch {
 	case strings.HasPrefix(v.Kind, "panic"):
-		out, code, _ := n.RunTi(map[string]string{"a.rb": src}, args, "")
+		out, code, _ := n.RunTi(map[string]string{"a.rb": src}, args, cfg)
 		res.Observed = tail(out, 1200)
 		res.Reproduced = code != 0 && (strings.Contains(out, "panic:") || strings.Contains(out, "fatal error:")) ||
 			code == 1 && strings.TrimSpace(out) == "timeout" && strings.Contains(v.Kind, "stack-overflow")
+	case v.Kind == "assert" && v.ID == "C01-output-lines":
+		out, code, _ := n.RunTi(map[string]string{"a.rb": src}, args, cfg)
+		res.Observed = tail(out, 600)
+		bad := false
+		if code == 0 && strings.TrimSpace(out) != "timeout" {
+			for _, line := range strings.Split(strings.TrimSuffix(out, "\n"), "\n") {
+				if out != "" && !strings.HasPrefix(line, "./a.rb:::") && !strings.HasPrefix(line, "@./a.rb:::") {
+					bad = true
+				}
+			}
+		}
+		res.Reproduced = bad
 	case v.Kind == "budget":
 		// a hang must print `timeout` and keep doing so when rerun (idle core)
 		hung := 0
 		for i := 0; i < 3; i++ {
-			out, _, capHit := n.RunTi(map[string]string{"a.rb": src}, args, "")
+			out, _, capHit := n.RunTi(map[string]string{"a.rb": src}, args, cfg)
 			res.Observed = tail(out, 400)
 			if strings.TrimSpace(out) == "timeout" || capHit {
 				hung++
